@@ -17,7 +17,8 @@ R1 argument words are escaped exactly when CWL says so, and with the right funct
 R2 environment, working directory and stream redirections reach the process through the shared renderer:
    a. `execute` passes `environment=<dict built from every self.environment item>`, `workdir=job.output_directory`
       and `stdin/stdout/stderr` evaluated from the homonymous CWL fields to `connector.run`; HOME / TMPDIR
-      are defaulted only when EnvVarRequirement did not set them, to outdir / tmpdir;
+      are defaulted only when EnvVarRequirement did not set them, to outdir / tmpdir (guarded stores, or a dict
+      merge `{defaults} | {entries}` -- a literal on the right of the entries overrides them and is reported);
    b. every caller of `create_command` (all `Connector.run` renderers) forwards its own `command`,
       `environment`, `workdir` (and `stdin/stdout/stderr` when it forwards them) unchanged;
    c. P9 on `create_command`: the environment *value* and `workdir` are sources, the returned command line is
@@ -28,6 +29,21 @@ R3 (added) escape suppression on composite bindings: `_get_command_token_process
    off on the outer processor of an array/record binding (`shellQuote = False`, `is_shell_command = True`) and
    relies on the nested processors to escape their own words; this is sound only if every leaf processor class
    the builder can create escapes in its `bind`.
+
+R4 (added) argument order: every sort of command tokens (`_merge_tokens` for the fields of a record,
+   `CWLCommand._get_executable_command` for the whole line, and any helper of theirs in the module) uses the CWL
+   sort key -- a sequence that starts with the token's `position` and breaks ties by the token's `name` whenever the
+   name is not None (and does not compare a None name), ascending.  The key function (lambda or named helper) is
+   evaluated symbolically for the two cases "name is None" / "name present"; a key the rule cannot read as such a
+   sequence is reported (the obligation "ordered by (position, name)" is then not established).
+R5 (added) word rendering: in every function that builds argv words (every `CommandTokenProcessor.bind`
+   override, `_get_executable_command` and the module-level helpers they call) a value derived from the token
+   (def-use taint from the token parameter / the `value=` of the returned CommandToken / `<token>.value`) is turned
+   into text only by `_get_value_repr` (the renderer that prints floats like the reference runner): no `str()`,
+   f-string field, `format`, `%`, `+` with a string or `sep.join` over raw values (error messages and logging are
+   exempt).  Positive side: `bind` glues `prefix` and `_get_value_repr(value)` for `separate: false`,
+   `_get_executable_command` renders the words with `_get_value_repr`, `_get_value_for_command` applies
+   `itemSeparator` to rendered items.
 
 Left out: nothing of DESIGN C30.R1/R2; `CommandTemplateMap.get_command` (the second half of S2) is in C25's
 scope (queue-manager renderers are not among C30's anchors).
@@ -69,6 +85,9 @@ CREATE = f"{UTILS}.create_command"
 TRANS = "streamflow.cwl.translator"
 TFILE = "streamflow/cwl/translator.py"
 BUILDER = f"{TRANS}._get_command_token_processor_from_input"
+MERGE = f"{MOD}._merge_tokens"
+EXE = f"{CMD}._get_executable_command"
+VFC = f"{MOD}._get_value_for_command"
 LOCAL = "streamflow.deployment.connector.local.LocalConnector"
 LFILE = "streamflow/deployment/connector/local.py"
 
@@ -83,7 +102,9 @@ META = {
         "of _escape_value/_get_value_repr, shlex.join on baseCommand, base64 wrapper for shell commands, wiring of "
         "environment/workdir/stdin/stdout/stderr from CWLCommand.execute through every Connector.run renderer into "
         "create_command, P9 quoting analysis of create_command (flow-sensitive for the redirection targets) and of "
-        "LocalConnector.run, and escape coverage of the leaf processors under composite bindings. Necessary "
+        "LocalConnector.run, escape coverage of the leaf processors under composite bindings, symbolic evaluation of the "
+        "sort key of every command-token sort ((position, name) order), and def-use taint of token values into text "
+        "renderings (only _get_value_repr may turn a token value into a word). Necessary "
         "conditions only; the argv/env equality with the reference runner is not established."
     ),
     "undecided": "equality with cwltool's argv / environment / redirections (needs execution of both runners)",
@@ -535,6 +556,13 @@ def _attr_origins(f, expr, attrs) -> set[str]:
     return out
 
 
+def _or_chain(e) -> list:
+    """Operands of a `a | b | c` chain, left to right."""
+    if isinstance(e, ast.BinOp) and isinstance(e.op, ast.BitOr):
+        return _or_chain(e.left) + _or_chain(e.right)
+    return [e]
+
+
 def r2(ctx):
     p = ctx.prog
     f = p.func(f"{CMD}.execute")
@@ -550,8 +578,19 @@ def r2(ctx):
     ds = [d for d in defs_of(f, E)]
     comp_ok = False
     msg = f"`{E}` is not built from every item of self.environment"
+    merged = {}  # key -> [(dict literal value, literal comes after the EnvVarRequirement entries in a `|` chain)]
     for d in ds:
         v = d.value
+        operands = _or_chain(v) if d.kind == "assign" and v is not None else []
+        comps = [i for i, o in enumerate(operands) if isinstance(o, ast.DictComp)]
+        if len(operands) > 1 and len(comps) == 1:
+            # `{defaults} | {entries}` / `{entries} | {overrides}`: the right operand of `|` wins
+            for i, o in enumerate(operands):
+                if isinstance(o, ast.Dict):
+                    for k_, v_ in zip(o.keys, o.values):
+                        if isinstance(k_, ast.Constant):
+                            merged.setdefault(k_.value, []).append((v_, i > comps[0]))
+            v = operands[comps[0]]
         if d.kind == "assign" and isinstance(v, ast.DictComp) and len(v.generators) == 1:
             gen = v.generators[0]
             it = gen.iter
@@ -587,6 +626,13 @@ def r2(ctx):
         ns = stores.get(key, [])
         ok = bool(ns)
         msg = f"{key} is not defaulted in the tool environment (CWL: HOME = output directory, TMPDIR = temporary directory)"
+        if not ns and merged.get(key):
+            ok = True
+            for v_, after in merged[key]:
+                if after:
+                    ok, msg = False, f"`{{...EnvVarRequirement...}} | {{{key!r}: {unparse(v_)}}}` overwrites {key} even when EnvVarRequirement sets it (the right operand of `|` wins)"
+                elif not unparse(v_).endswith("." + attr):
+                    ok, msg = False, f"{key} defaults to `{unparse(v_)}` instead of job.{attr}"
         for n in ns:
             val = unparse(n.ast.value)
             guards = [
@@ -866,9 +912,360 @@ def r3(ctx):
         )
 
 
-RULES = [("R1", r1), ("R2", r2), ("R3", r3)]
-FLOORS = {"R1": 10, "R2": 18, "R3": 5}
+# --------------------------------------------------------------------------- R4
 
+
+_NAME = "<name>"  # stands for "the token has a name" in the symbolic evaluation of a sort key
+
+
+def _bind_qualnames(p) -> set[str]:
+    return {f.qualname for f in p.overrides(TPROC, "bind")}
+
+
+def _module_closure(p, roots, stop) -> list:
+    """`roots` plus the functions of the CWL command module they call (transitively), never entering `stop`."""
+    out = list(roots)
+    todo = list(roots)
+    while todo:
+        f = todo.pop()
+        for c in f.calls():
+            for q in p.resolve_call(f, c, fanout=False):
+                g = p.functions.get(q)
+                if g is None or g in out or q in stop or g.module.name != MOD:
+                    continue
+                out.append(g)
+                todo.append(g)
+    return out
+
+
+def _sort_calls(p, f) -> list[ast.Call]:
+    out = []
+    for c in f.body_nodes():
+        if not isinstance(c, ast.Call):
+            continue
+        if isinstance(c.func, ast.Name) and c.func.id == "sorted" and p.resolve_call(f, c, fanout=False) == ["sorted"]:
+            out.append(c)
+        elif isinstance(c.func, ast.Attribute) and c.func.attr == "sort" and not c.args:
+            out.append(c)
+    return sorted(out, key=lambda c: (c.lineno, c.col_offset))
+
+
+def _key_alternatives(p, f, key):
+    """The key function as (parameter, [(guards, expression)] in evaluation order); (None, reason) when it is not a
+    one-parameter lambda / straight-line helper."""
+    if isinstance(key, ast.Lambda):
+        a = key.args
+        if len(a.args) != 1 or a.posonlyargs or a.vararg or a.kwonlyargs or a.kwarg:
+            return None, "is not a one-parameter function"
+        return a.args[0].arg, [([], key.body)]
+    if isinstance(key, (ast.Name, ast.Attribute)):
+        qs = p.resolve_call(f, ast.Call(func=key, args=[], keywords=[]), fanout=False)
+        kf = p.functions.get(qs[0]) if len(qs) == 1 else None
+        if kf is None:
+            return None, f"`{unparse(key)}` is not a function of the program"
+        params = [x for x in kf.params if x not in ("self", "cls")]
+        if len(params) != 1:
+            return None, f"`{unparse(key)}` is not a one-parameter function"
+        if any(isinstance(n, (ast.For, ast.AsyncFor, ast.While, ast.Try, ast.With, ast.Match)) for n in kf.body_nodes()):
+            return None, f"`{unparse(key)}` is not a straight-line function"
+        alts = []
+        for r in sorted(_returns(kf), key=lambda r: r.lineno):
+            if r.value is None:
+                return None, f"`{unparse(key)}` can return None"
+            alts.append(([(t, pol) for t, pol, _ in guards_of(r, stop=kf.node)], expand(kf, r.value)))
+        return params[0], alts
+    return None, "is not a lambda or a named function"
+
+
+def _key_result(alts, param: str, has_name: bool):
+    """The expression the key function evaluates to for a token with / without a name (NotFoldable if a guard is not
+    a test of `<param>.name`)."""
+    atom = f"{param}.name"
+    val = _NAME if has_name else None
+
+    def pick(e):
+        while isinstance(e, ast.IfExp):
+            e = e.body if _fold3(e.test, atom, val) else e.orelse
+        return e
+
+    for guards, e in alts:
+        if all(bool(_fold3(t, atom, val)) == pol for t, pol in guards):
+            return pick(e)
+    raise NotFoldable("no return applies")
+
+
+def _key_defect(p, f, call) -> str | None:
+    """None when the sort call orders tokens by (position, name) ascending, else what is wrong."""
+    kws = {k.arg: k.value for k in call.keywords if k.arg}
+    rev = kws.get("reverse")
+    if rev is not None and not (isinstance(rev, ast.Constant) and rev.value is False):
+        return f"sorts with reverse={unparse(rev)}"
+    key = kws.get("key")
+    if key is None:
+        return "sorts without a key"
+    key = expand(f, key) if isinstance(key, ast.Name) and _is_local_value(f, key.id) else key
+    param, alts = _key_alternatives(p, f, key)
+    if param is None:
+        return f"sort key `{unparse(key)[:80]}` {alts}"
+    for has_name in (True, False):
+        case = "a named token" if has_name else "a token without name"
+        try:
+            res = _key_result(alts, param, has_name)
+        except NotFoldable as e:
+            return f"sort key `{unparse(key)[:80]}` branches on `{e}`, which is not a test of `{param}.name`"
+        if not isinstance(res, (ast.List, ast.Tuple)):
+            return f"sort key is `{unparse(res)[:60]}` for {case}, not the sequence (position, name): tokens sharing a position keep declaration order"
+        elts = [unparse(e) for e in res.elts]
+        if not elts or elts[0] != f"{param}.position":
+            return f"sort key `{unparse(res)[:60]}` for {case} does not start with the token position"
+        if has_name and (len(elts) < 2 or elts[1] != f"{param}.name"):
+            return f"sort key `{unparse(res)[:60]}` for {case} does not break position ties by the token name"
+        if not has_name and f"{param}.name" in elts:
+            return f"sort key `{unparse(res)[:60]}` compares the None name of a token without name (arguments) with strings"
+    return None
+
+
+def _is_local_value(f, name: str) -> bool:
+    ds = defs_of(f, name)
+    return len(ds) == 1 and ds[0].kind == "assign" and isinstance(ds[0].value, ast.Lambda)
+
+
+def r4(ctx):
+    p = ctx.prog
+    binds = _bind_qualnames(p)
+    for fq, what in ((MERGE, "the fields of a record"), (EXE, "the command line")):
+        root = p.func(fq)
+        scope = _module_closure(p, [root], stop=({MERGE, EXE} - {fq}) | binds | {REPR, ESC})
+        sites = [(g, c) for g in scope for c in _sort_calls(p, g)]
+        ctx.ob("R4", f"{root.name} sorts the tokens of {what}", bool(sites), func=root, node=root.node, instance=f"order:{root.name}:present",
+               message=f"{root.qualname} no longer sorts the tokens of {what}: arguments reach the tool in declaration order instead of (position, name) order")
+        for i, (g, c) in enumerate(sites):
+            bad = _key_defect(p, g, c)
+            ctx.ob("R4", f"{root.name}: tokens of {what} are ordered by (position, name)", bad is None, func=g, node=c,
+                   instance=f"order:{root.name}:key:{i}",
+                   message=f"{g.qualname} {bad} (CWL: bindings are sorted by position, ties broken by the input name)")
+
+
+# --------------------------------------------------------------------------- R5
+
+_STR_FUNCS = ("str", "repr", "format", "ascii")
+
+
+def _annot_is_str(ann) -> bool:
+    return ann is not None and any(isinstance(n, ast.Name) and n.id == "str" for n in ast.walk(ann)) and not any(
+        isinstance(n, ast.Name) and n.id in ("Any", "Token", "MutableSequence", "MutableMapping") for n in ast.walk(ann))
+
+
+def _is_repr_call(p, f, n) -> bool:
+    return isinstance(n, ast.Call) and REPR in resolved(p, f, n)
+
+
+def _texty(p, f, e) -> bool:
+    """The expression is text by construction (so `+` on it is string concatenation)."""
+    if isinstance(e, ast.Constant):
+        return isinstance(e.value, str)
+    if isinstance(e, ast.JoinedStr):
+        return True
+    if isinstance(e, ast.Call):
+        if dotted(e.func) in _STR_FUNCS or _is_repr_call(p, f, e):
+            return True
+        return isinstance(e.func, ast.Attribute) and e.func.attr in ("format", "join") and _texty(p, f, e.func.value)
+    if isinstance(e, ast.BinOp) and isinstance(e.op, ast.Add):
+        return _texty(p, f, e.left) or _texty(p, f, e.right)
+    if isinstance(e, ast.Attribute) and isinstance(e.value, ast.Name) and e.value.id == "self" and f.cls is not None:
+        return p.attr_type(f.cls.qualname, e.attr) == "str"
+    if isinstance(e, ast.Name) and e.id in f.params:
+        return _annot_is_str(f.param_annotation(e.id))
+    return False
+
+
+def _raw_reads(p, f, expr, tainted) -> list[ast.AST]:
+    """Reads of a token-derived value in `expr` that are not arguments of `_get_value_repr`."""
+    out = []
+    for n in [expr, *ast.walk(expr)]:
+        hit = (isinstance(n, ast.Name) and isinstance(n.ctx, ast.Load) and n.id in tainted) or (
+            isinstance(n, ast.Attribute) and n.attr == "value" and isinstance(n.value, ast.Name) and n.value.id not in ("self", "cls")
+            and isinstance(n.ctx, ast.Load))
+        if not hit or any(x is n for x in out):
+            continue
+        rendered = False
+        if n is not expr:
+            for a in ancestors(n):
+                if _is_repr_call(p, f, a):
+                    rendered = True
+                    break
+                if a is expr:
+                    break
+        if not rendered:
+            out.append(n)
+    return out
+
+
+def _store_names(t) -> list[str]:
+    return [n.id for n in ast.walk(t) if isinstance(n, ast.Name)]
+
+
+def _taint(p, f, seeds) -> set[str]:
+    tainted = set(seeds)
+    nodes = list(walk_no_nested(f.node))
+    changed = True
+    while changed:
+        changed = False
+        for n in nodes:
+            val, tgts = None, []
+            if isinstance(n, ast.Assign):
+                val, tgts = n.value, n.targets
+            elif isinstance(n, (ast.AnnAssign, ast.AugAssign)) and n.value is not None:
+                val, tgts = n.value, [n.target]
+            elif isinstance(n, ast.NamedExpr):
+                val, tgts = n.value, [n.target]
+            elif isinstance(n, (ast.For, ast.AsyncFor, ast.comprehension)):
+                val, tgts = n.iter, [n.target]
+            if val is None or not _raw_reads(p, f, val, tainted):
+                continue
+            for t in tgts:
+                if isinstance(t, (ast.Name, ast.Tuple, ast.List, ast.Starred)):
+                    for name in _store_names(t):
+                        if name not in tainted:
+                            tainted.add(name)
+                            changed = True
+    return tainted
+
+
+def _render_sites(p, f):
+    """(node, kind, operands): places where values are turned into / concatenated as text."""
+    for n in walk_no_nested(f.node):
+        if isinstance(n, ast.Call):
+            d = dotted(n.func)
+            if d in _STR_FUNCS and n.args:
+                yield n, f"{d}()", [n.args[0]]
+            elif isinstance(n.func, ast.Attribute) and n.func.attr == "format" and _texty(p, f, n.func.value):
+                yield n, "str.format", [*n.args, *[k.value for k in n.keywords]]
+            elif isinstance(n.func, ast.Attribute) and n.func.attr == "join" and len(n.args) == 1 and _texty(p, f, n.func.value):
+                a = n.args[0]
+                if isinstance(a, (ast.ListComp, ast.GeneratorExp)):
+                    yield n, "join", [a.elt]
+                elif isinstance(a, ast.Call) and dotted(a.func) == "map" and len(a.args) == 2:
+                    fn = a.args[0]
+                    is_repr = REPR in resolved(p, f, ast.Call(func=fn, args=[], keywords=[])) if isinstance(fn, (ast.Name, ast.Attribute)) else False
+                    yield n, "join", ([] if is_repr else [a.args[1]])
+                else:
+                    yield n, "join", [a]
+        elif isinstance(n, ast.JoinedStr):
+            ops = [v.value for v in n.values if isinstance(v, ast.FormattedValue)]
+            if ops:
+                yield n, "f-string", ops
+        elif isinstance(n, ast.BinOp) and isinstance(n.op, ast.Mod) and _texty(p, f, n.left):
+            yield n, "%-format", [n.right]
+        elif isinstance(n, ast.BinOp) and isinstance(n.op, ast.Add):
+            lt, rt = _texty(p, f, n.left), _texty(p, f, n.right)
+            if lt or rt:
+                yield n, "string +", [x for x, t in ((n.left, lt), (n.right, rt)) if not t]
+
+
+def _diagnostic_context(n) -> bool:
+    """Inside a `raise` statement or a logging call: text for people, not for the command line."""
+    if isinstance(enclosing_stmt(n), ast.Raise):
+        return True
+    for a in ancestors(n):
+        if isinstance(a, ast.Call) and (dotted(a.func) or "").split(".")[0] in ("logger", "logging", "warnings"):
+            return True
+        if isinstance(a, ast.stmt):
+            break
+    return False
+
+
+def _render_seeds(p, f) -> set[str]:
+    seeds = {x for x in f.params if x not in ("self", "cls", "options", "position") and not _annot_is_str(f.param_annotation(x))}
+    for c in f.calls():
+        if any(q in p.classes and p.is_subclass(q, TOKEN) for q in p.resolve_call(f, c, fanout=False)):
+            for k in c.keywords:
+                if k.arg == "value":
+                    seeds.update(n.id for n in ast.walk(k.value) if isinstance(n, ast.Name) and isinstance(n.ctx, ast.Load) and n.id not in ("isinstance", "MutableSequence"))
+    return seeds
+
+
+def r5(ctx):
+    p = ctx.prog
+    ctx.require(p.has(REPR), f"C30.R5: anchor {REPR} vanished")
+    exe = p.func(EXE)
+    binds = [f for f in p.overrides(TPROC, "bind") if not f.is_abstract]
+    ctx.require(len(binds) >= 3, f"C30.R5: only {len(binds)} concrete CommandTokenProcessor.bind overrides found")
+    scope = _module_closure(p, [exe, *binds], stop={REPR})
+    taints = {}
+    for f in scope:
+        tainted = _taint(p, f, _render_seeds(p, f))
+        taints[f.qualname] = tainted
+        bad = []
+        first = None
+        n_sites = 0
+        for node, kind, ops in _render_sites(p, f):
+            if _diagnostic_context(node):
+                continue
+            n_sites += 1
+            raw = [r for o in ops for r in _raw_reads(p, f, o, tainted)]
+            if raw:
+                first = first or node
+                bad.append(f"{kind} `{unparse(node)[:70]}` (line {node.lineno}) renders `{unparse(raw[0])}`")
+        short = ".".join(f.qualname.split(".")[3:])
+        ctx.ob("R5", f"{short}: token values become text only through _get_value_repr ({n_sites} rendering sites)", not bad, func=f, node=first or f.node,
+               instance=f"render:{short}",
+               message=f"{f.qualname} turns a token value into text without _get_value_repr: " + "; ".join(bad)
+               + " -- floats are printed with Python's repr (1e-05, 30000000000.0) instead of the reference decimal rendering",
+               witness=bad)
+    # positive side
+    for f in binds:
+        prefix_reads = [n for n in f.body_nodes() if isinstance(n, ast.Attribute) and n.attr == "prefix" and isinstance(n.value, ast.Name) and n.value.id == "self"
+                        and isinstance(n.ctx, ast.Load)]
+        if not prefix_reads:
+            continue
+        tainted = taints[f.qualname]
+
+        def _renders_value(x, f=f, tainted=tainted):
+            return _is_repr_call(p, f, x) and bool(x.args) and bool(_raw_reads(p, f, x.args[0], tainted))
+
+        # locals holding an already rendered value (`text = _get_value_repr(value)`)
+        rendered = set()
+        for n in f.body_nodes():
+            if isinstance(n, (ast.Assign, ast.AnnAssign, ast.NamedExpr)) and n.value is not None and _renders_value(n.value):
+                for t in n.targets if isinstance(n, ast.Assign) else [n.target]:
+                    if isinstance(t, ast.Name):
+                        rendered.add(t.id)
+        glue = []
+        for n in f.body_nodes():
+            is_text_op = (isinstance(n, ast.BinOp) and isinstance(n.op, ast.Add)) or isinstance(n, ast.JoinedStr) or (
+                isinstance(n, ast.Call) and isinstance(n.func, ast.Attribute) and n.func.attr in ("format", "join"))
+            if not is_text_op or not any(any(x is r for x in ast.walk(n)) for r in prefix_reads):
+                continue
+            if any(_renders_value(x) for x in ast.walk(n)) or any(isinstance(x, ast.Name) and x.id in rendered for x in ast.walk(n)):
+                glue.append(n)
+        ctx.ob("R5", "bind glues prefix and the rendered value into one word (separate: false)", bool(glue), func=f, node=f.node, instance="render:prefix-glue",
+               message=f"{f.qualname} reads self.prefix but never concatenates it with _get_value_repr(value): `separate: false` bindings no longer yield the single word <prefix><value>")
+    words = [c for c in exe.body_nodes() if _is_repr_call(p, exe, c) and c.args and _raw_reads(p, exe, c.args[0], taints[exe.qualname])]
+    ctx.ob("R5", "_get_executable_command renders the words of every token with _get_value_repr", bool(words), func=exe, node=exe.node, instance="render:words",
+           message="_get_executable_command no longer passes the token words through _get_value_repr: unquoted numeric words (shellQuote: false) are not rendered like the reference runner")
+    vfc = p.func(VFC)
+    seps = [x for x in vfc.params if _annot_is_str(vfc.param_annotation(x))]
+    joins = [c for c in vfc.body_nodes() if isinstance(c, ast.Call) and isinstance(c.func, ast.Attribute) and c.func.attr == "join"
+             and isinstance(c.func.value, ast.Name) and c.func.value.id in seps]
+    ctx.ob("R5", "_get_value_for_command joins array items with itemSeparator", bool(joins), func=vfc, node=vfc.node, instance="render:item-separator",
+           message="_get_value_for_command never joins the items with its item_separator: itemSeparator bindings yield one word per item")
+
+
+RULES = [("R1", r1), ("R2", r2), ("R3", r3), ("R4", r4), ("R5", r5)]
+FLOORS = {"R1": 10, "R2": 18, "R3": 5, "R4": 4, "R5": 8}
+
+_ENV_COMP_TAIL = "for k, v in self.environment.items()}"
+_ENV_COMP = ("{k: str(utils.eval_expression(expression=v, context=context, full_js=self.full_js, expression_lib=self.expression_lib)) "
+             + _ENV_COMP_TAIL)
+_ENV_DEFAULTS = ("    if 'HOME' not in parsed_env:\n        parsed_env['HOME'] = job.output_directory\n"
+                 "    if 'TMPDIR' not in parsed_env:\n        parsed_env['TMPDIR'] = job.tmp_directory")
+_KEY = "key=lambda t: [t.position, t.name] if t.name is not None else [t.position]"
+_MERGE_SORT = ("tokens: list[CommandToken] = sorted(filter(lambda t: t.position is not None, flatten_list([_merge_tokens(t) for t in token.value.values() if t is not None])), "
+               + _KEY + ")")
+_GLUE = "value = [self.prefix + _get_value_repr(value)]"
+_SEP_JOIN = "item_separator.join([_get_value_repr(v) for v in value])"
+_WORDS = "[_get_value_repr(val) for val in t.value]"
 _ESC_STMT = "if not self.is_shell_command or self.shell_quote:\n                value = [_escape_value(v) for v in value]"
 
 VARIANTS = [
@@ -922,7 +1319,49 @@ VARIANTS = [
     V("ctor: stderr initialised from stdout", FILE, f"{CMD}.__init__", "self.stderr: str | None = step_stderr", "self.stderr: str | None = step_stdout", "R2"),
     V("translator: env value keyed by value", TFILE, f"{TRANS}._create_command", "command.environment[env_entry.envName] = env_entry.envValue", "command.environment[env_entry.envValue] = env_entry.envName", "R2"),
     V("second raw leaf under composite bindings", FILE, f"{PROC}.bind", _ESC_STMT, "pass", "R3"),
+    V("env: HOME/TMPDIR merged over the EnvVarRequirement entries (seed 1)", FILE, f"{CMD}.execute",
+      _ENV_COMP_TAIL + "\n" + _ENV_DEFAULTS, _ENV_COMP_TAIL + " | {'HOME': job.output_directory, 'TMPDIR': job.tmp_directory}", "R2"),
+    # R4 (seeded change C30/2 and siblings)
+    V("record fields sorted by position only (seed 2)", FILE, MERGE, _KEY, "key=lambda t: t.position", "R4"),
+    V("record fields: name tie-break dropped, list kept", FILE, MERGE, _KEY, "key=lambda t: [t.position]", "R4"),
+    V("command line sorted by position only", FILE, EXE, _KEY, "key=lambda t: t.position", "R4"),
+    V("command line sorted by name before position", FILE, EXE, _KEY, "key=lambda t: [t.name, t.position] if t.name is not None else [t.position]", "R4"),
+    V("command line: None name compared", FILE, EXE, _KEY, "key=lambda t: [t.position, t.name]", "R4"),
+    V("command line sorted descending", FILE, EXE, _KEY, _KEY + ", reverse=True", "R4"),
+    V("record fields no longer sorted", FILE, MERGE, _MERGE_SORT,
+      "tokens: list[CommandToken] = list(filter(lambda t: t.position is not None, flatten_list([_merge_tokens(t) for t in token.value.values() if t is not None])))", "R4"),
+    V("record fields: tie-break only for unnamed tokens (guard inverted)", FILE, MERGE, _KEY, "key=lambda t: [t.position, t.name] if t.name is None else [t.position]", "R4"),
+    V("sort key helper without the name", FILE, MERGE, _KEY, "key=_token_key", "R4", append="def _token_key(t):\n    return [t.position]\n"),
+    # R5 (seeded change C30/3 and siblings)
+    V("separate:false prefix glued with an f-string (seed 3)", FILE, f"{PROC}.bind", _GLUE, "value = [f'{self.prefix}{value}']", "R5"),
+    V("separate:false prefix glued with str()", FILE, f"{PROC}.bind", _GLUE, "value = [self.prefix + str(value)]", "R5"),
+    V("separate:false prefix glued with format", FILE, f"{PROC}.bind", _GLUE, "value = ['{}{}'.format(self.prefix, value)]", "R5"),
+    V("separate:false str() through a temporary", FILE, f"{PROC}.bind", _GLUE, "text = str(value)\n                value = [self.prefix + text]", "R5"),
+    V("separate:false raw concatenation", FILE, f"{PROC}.bind", _GLUE, "value = [self.prefix + value]", "R5"),
+    V("separate:false ignored (two words)", FILE, f"{PROC}.bind", _GLUE, "value = [self.prefix, value]", "R5"),
+    V("itemSeparator joins str() of the items", FILE, VFC, _SEP_JOIN, "item_separator.join([str(v) for v in value])", "R5"),
+    V("itemSeparator joins map(str, items)", FILE, VFC, _SEP_JOIN, "item_separator.join(map(str, value))", "R5"),
+    V("itemSeparator ignored", FILE, VFC, "return " + _SEP_JOIN, "return [_get_value_repr(v) for v in value]", "R5"),
+    V("command words rendered with str()", FILE, EXE, _WORDS, "[str(val) for val in t.value]", "R5"),
+    V("command words not rendered", FILE, EXE, _WORDS, "[val for val in t.value]", "R5"),
     # ---- benign
+    V("benign: env defaults merged under the EnvVarRequirement entries", FILE, f"{CMD}.execute",
+      "parsed_env = " + _ENV_COMP + "\n" + _ENV_DEFAULTS, "parsed_env = {'HOME': job.output_directory, 'TMPDIR': job.tmp_directory} | " + _ENV_COMP, None),
+    V("benign: sort key as tuples", FILE, MERGE, _KEY, "key=lambda t: (t.position, t.name) if t.name is not None else (t.position,)", None),
+    V("benign: sort key parameter renamed", FILE, EXE, _KEY, "key=lambda tok: [tok.position, tok.name] if tok.name is not None else [tok.position]", None),
+    V("benign: sort key conditional inverted", FILE, MERGE, _KEY, "key=lambda t: [t.position] if t.name is None else [t.position, t.name]", None),
+    V("benign: sort key with explicit reverse=False", FILE, EXE, _KEY, _KEY + ", reverse=False", None),
+    V("benign: sort key extracted into a helper", FILE, EXE, _KEY, "key=_token_key", None,
+      append="def _token_key(t):\n    if t.name is None:\n        return [t.position]\n    return [t.position, t.name]\n"),
+    V("benign: record fields sorted in place", FILE, MERGE, _MERGE_SORT,
+      "tokens: list[CommandToken] = list(filter(lambda t: t.position is not None, flatten_list([_merge_tokens(t) for t in token.value.values() if t is not None])))\n"
+      "            tokens.sort(" + _KEY + ")", None),
+    V("benign: prefix glued with an f-string over the renderer", FILE, f"{PROC}.bind", _GLUE, "value = [f'{self.prefix}{_get_value_repr(value)}']", None),
+    V("benign: rendered value through a temporary", FILE, f"{PROC}.bind", _GLUE, "text = _get_value_repr(value)\n                value = [self.prefix + text]", None),
+    V("benign: prefix glued with ''.join", FILE, f"{PROC}.bind", _GLUE, "value = [''.join([self.prefix, _get_value_repr(value)])]", None),
+    V("benign: value logged before gluing", FILE, f"{PROC}.bind", _GLUE, "logger.debug(f'binding {value} with prefix {self.prefix}')\n                " + _GLUE, None),
+    V("benign: itemSeparator joins map(renderer)", FILE, VFC, _SEP_JOIN, "item_separator.join(map(_get_value_repr, value))", None),
+    V("benign: itemSeparator joins a generator, variable renamed", FILE, VFC, _SEP_JOIN, "item_separator.join((_get_value_repr(item) for item in value))", None),
     V("benign: guard hoisted into a local", FILE, f"{PROC}.bind", "if not self.is_shell_command or self.shell_quote:",
       "must_escape = not self.is_shell_command or self.shell_quote\n            if must_escape:", None),
     V("benign: De Morgan form of the guard", FILE, f"{PROC}.bind", "if not self.is_shell_command or self.shell_quote:", "if not (self.is_shell_command and (not self.shell_quote)):", None),
